@@ -7,6 +7,7 @@ import (
 	"errors"
 	"fmt"
 	"io"
+	"math"
 	"runtime/debug"
 	"sort"
 	"strconv"
@@ -350,7 +351,13 @@ func consumerMain(r *run, ctx context.Context, members []group.Member) {
 		return
 	}
 	if c.API == "x" {
-		r.slice, r.err = group.Execute(ctx, strategyConst[c.Strat], members)
+		st := strategyConst[c.Strat]
+		if c.Strat == "other" {
+			// any value outside the enum is "the implementation chooses" = All: the first value past the enum, a negative
+			// one, a large one, chosen by the shape of the case
+			st = []group.ExecutionStrategy{group.ExecutionStrategyRace + 1, -1, 99, group.ExecutionStrategy(math.MaxInt32)}[(c.n()+len(c.line()))%4]
+		}
+		r.slice, r.err = group.Execute(ctx, st, members)
 		return
 	}
 	switch c.Strat {
